@@ -237,8 +237,13 @@ def check_inert(chk, tu, closed_records):
                                 else:
                                     args.append(unk(nm, tu.desugar(astdb.qtype(prm))))
                         return args
+                    def stop_at_native(interp, name, args, node, res):
+                        # the first native call on a dead descriptor already settles the verdict for this path
+                        if 'extern:' + name not in HARMLESS:
+                            raise pe.PathAbort('native-call')
+                        return None
                     try:
-                        paths = W.explore_entry(tu, fname, mk, table, max_paths=400, errno_value=5)
+                        paths = W.explore_entry(tu, fname, mk, table, max_paths=400, errno_value=5, extern_hook=stop_at_native)
                     except pe.PEError as e:
                         raise AnalysisBroken('%s: %s' % (fname, e))
                     inst = '%s/%s[fd#%d=%s]' % (gen, imp, which, sname)
